@@ -1104,6 +1104,16 @@ def _pop_getitem(eng, recv, args, kwargs):
 POP_PROTO["__getitem__"] = _pop_getitem
 
 
+def _pop_len(eng, recv, args, kwargs):
+    """len(p) of an opaque member population: tlen(p), which IS the length of its container (Population.__len__/post/number-of-trees)"""
+    eng.assumptions.add("C19-model: an opaque member population p has len(p) == len(p.trees) (verified: Population.__len__/post/number-of-trees)")
+    eng.assume(TLEN(recv.z) == TLEN(TREES_FIELD(recv.z)))
+    return _p_len(eng, recv, args, kwargs)
+
+
+POP_PROTO["__len__"] = _pop_len
+
+
 # A comprehension over a symbolic-length sequence whose ELEMENT is a container object (`[p[a:b] for p in self.populations]`: one
 # NestTrees view per member).  Such a list enters the rest of the proof the way every chain member does: as a list of `Trees`
 # references, each known through tlen / item only.  The length and the items of the element are NOT assumed: the element's REAL
